@@ -298,6 +298,36 @@ fn mutated_case(ch: &mut Choices<'_>, st: &mut Stats) -> CaseResult {
     })
 }
 
+/// Grammatical but (mostly) ill-typed filters: the typed generator's output after structural, type-breaking mutations
+/// (wrong index kind for the container, a field of another type, `[*]` moved, literal of another kind, ...), half of
+/// them with character-level edits on top.  The type checker's own failure paths are parser code too.
+fn illtyped_case(ch: &mut Choices<'_>, st: &mut Stats) -> CaseResult {
+    let (recipe, text, applied) = crate::c04::mutated_typed_text(ch);
+    let s = recipe.build();
+    let input = if ch.chance(1, 3) { mutate_text(ch, &text) } else { text.clone() };
+    st.class(&format!("illtyped-structural-mutations-{applied}"));
+    check_input(&s, &input, st, "typed-filter-after-type-breaking-mutations").map_err(|mut f| {
+        f.case = json!({"input": input, "before-character-edits": text, "scheme": recipe.show()});
+        f
+    })
+}
+
+/// Every text of C04's typing matrices (left type x operator x literal kind, container x index kind, operand pairs,
+/// quantifier and call argument shapes), accepted or not.
+fn matrix_case(ch: &mut Choices<'_>, st: &mut Stats) -> CaseResult {
+    static M: std::sync::OnceLock<(Scheme, Vec<String>)> = std::sync::OnceLock::new();
+    let (s, texts) = M.get_or_init(|| {
+        let (r, t) = crate::c04::matrix_texts();
+        (r.build(), t)
+    });
+    let i = ch.draw(texts.len());
+    check_input(s, &texts[i], st, "typing-matrix-text")
+}
+
+fn matrix_total() -> u64 {
+    crate::c04::matrix_texts().1.len() as u64
+}
+
 // ---------------------------------------------------------------------------
 // Stress inputs (child process, thread with an 8 MiB stack)
 
@@ -669,13 +699,15 @@ pub fn subs() -> Vec<Sub> {
         Sub { name: "strings", f: Box::new(strings_case) },
         Sub { name: "growth", f: Box::new(growth_case) },
         Sub { name: "mutated", f: Box::new(mutated_case) },
+        Sub { name: "illtyped", f: Box::new(illtyped_case) },
+        Sub { name: "matrix", f: Box::new(matrix_case) },
         Sub { name: "stress", f: Box::new(stress_case) },
     ]
 }
 
 pub fn run(run: &Run) {
     run.rule(
-        "unicode: random strings over ASCII / language punctuation / whitespace incl. tab and CR / multi-byte and arbitrary code points; soup: 1-30 tokens from the language's alphabet (identifiers, operators and aliases, literal fragments, brackets, quote/raw-string/escape fragments, multi-byte chars); strings: a quoted / raw / unterminated literal assembled from letters, \\\" \\\\ \\xHH \\OOO escapes (valid and invalid, bytes >= 0x80), multi-byte characters and stray quotes, placed as map key, comparison / set / regex / wildcard right-hand side or function argument; mutated: valid filters printed from the full generator with 1-4 edits (insert/delete/duplicate/transpose/truncate/replace-with-multibyte/insert-token/drop-prefix); growth: six shapes of well-typed call nests and three of nests that must be rejected (unknown field / unknown function / ill-typed literal at the bottom, a counted call beside it at every level) (comparison / parenthesised / negated / chained logical arguments, as filter and as value expression) parsed at depth 4, 8 and 16 over a scheme whose function definition counts its parameter checks - the count must not grow by more than a factor 200 from depth 4 to 16 (any cubic polynomial stays below 64, doubling per level gives 4096); stress: 1e5-operand chains and 1e5-deep nestings (and their truncations) parsed in a child process on an 8 MiB-stack thread; each input goes through Scheme::parse and Scheme::parse_value; \
+        "unicode: random strings over ASCII / language punctuation / whitespace incl. tab and CR / multi-byte and arbitrary code points; soup: 1-30 tokens from the language's alphabet (identifiers, operators and aliases, literal fragments, brackets, quote/raw-string/escape fragments, multi-byte chars); strings: a quoted / raw / unterminated literal assembled from letters, \\\" \\\\ \\xHH \\OOO escapes (valid and invalid, bytes >= 0x80), multi-byte characters and stray quotes, placed as map key, comparison / set / regex / wildcard right-hand side or function argument; mutated: valid filters printed from the full generator with 1-4 edits (insert/delete/duplicate/transpose/truncate/replace-with-multibyte/insert-token/drop-prefix); illtyped: filters from the typed generator after 0-3 type-breaking structural mutations (wrong index kind, field of another type, [*] moved, literal of another kind, operand kinds mixed, arguments dropped / duplicated), a third of them with character edits on top; matrix: every text of C04's typing matrices (accepted or rejected); growth: six shapes of well-typed call nests and three of nests that must be rejected (unknown field / unknown function / ill-typed literal at the bottom, a counted call beside it at every level) (comparison / parenthesised / negated / chained logical arguments, as filter and as value expression) parsed at depth 4, 8 and 16 over a scheme whose function definition counts its parameter checks - the count must not grow by more than a factor 200 from depth 4 to 16 (any cubic polynomial stays below 64, doubling per level gives 4096); stress: 1e5-operand chains and 1e5-deep nestings (and their truncations) parsed in a child process on an 8 MiB-stack thread; each input goes through Scheme::parse and Scheme::parse_value; \
          non-trivial = the input is accepted, or rejected with an error column > 1 (not at its first token); distinct by (entry point, input)",
     );
     run.assume("an abnormal child exit is a violation; a child that exceeds the watchdog is inconclusive");
@@ -690,6 +722,8 @@ pub fn run(run: &Run) {
     run.random("strings", n, 60, &*find_sub(&subs, "strings").unwrap().f);
     let n = run.tier.pick(200_000, 4_000_000);
     run.random("mutated", n, 300, &*find_sub(&subs, "mutated").unwrap().f);
+    run.random("illtyped", n, 300, &*find_sub(&subs, "illtyped").unwrap().f);
+    run.enumerate("matrix", matrix_total(), &|i| vec![i as u32], &*find_sub(&subs, "matrix").unwrap().f);
     let _ = g::INT_POOL;
     if run.tier == Tier::Thorough {
         fuzz_campaign(run, "parse_total", 8, 300_000, 2048, Some("parse.dict"));
